@@ -55,7 +55,8 @@ func gen(rng *rand.Rand, tier core.Tier, emit core.Emit) {
 	if tier == core.Thorough {
 		n = 3000
 	}
-	durs := []int64{1 * sec, 10 * sec, 60 * sec, 180 * sec, 600 * sec, 3600 * sec, 7200 * sec}
+	// the last two: about 2.5 s and 90.5 s — not whole seconds; multiples of 2^20 ns so that halves and quarters stay exact in float64 scores
+	durs := []int64{1 * sec, 10 * sec, 60 * sec, 180 * sec, 600 * sec, 3600 * sec, 7200 * sec, 2384 << 20, 86309 << 20}
 	// the real cleaner component over several passes of ONE instance: retention shorter / equal / longer than the interval,
 	// servers and instances written at various ages, a pass whose scan hits a storage error followed by healthy ones
 	nc := 12
@@ -156,11 +157,18 @@ func gen(rng *rand.Rand, tier core.Tier, emit core.Emit) {
 				s := servers[i]
 				init = append(init, fmt.Sprintf("report|%s|10481|%s|%s|%d", s.addr, s.id, hexs("old"), i))
 			}
-			init = append(init, fmt.Sprintf("adv%d", retention+int64(rng.Intn(3))*256+int64(rng.Intn(2))*sec))
+			past := int64(rng.Intn(3))*256 + int64(rng.Intn(2))*sec
+			init = append(init, fmt.Sprintf("adv%d", retention+past))
 			victim := servers[rng.Intn(ns)]
 			refresher := fmt.Sprintf("report|%s|10481|%s|%s|9", victim.addr, victim.id, hexs("fresh"))
-			if rng.Intn(2) == 0 {
+			switch rng.Intn(5) {
+			case 0, 1:
 				refresher = fmt.Sprintf("renew|%s|%s", victim.id, victim.ip)
+			case 2:
+				// the refresh of a node whose clock lags (or of an operation that was long in flight): it stores a refresh time a
+				// few hundred nanoseconds after the cutoff of the pass (cutoff = start + past): after is after, by whatever margin
+				margin := []int64{256, 512, 768, 399872, 999936, -256, 0}[rng.Intn(7)]
+				refresher = fmt.Sprintf("call|update!%s/10481/6/9/%d!over", victim.addr, world.Epoch.UnixNano()+past+margin)
 			}
 			// place the whole refresh after the pass's k-th repository call (filter, remove, remove, …)
 			var ev []string
